@@ -18,6 +18,8 @@ import GeoProofs.Lemmas.C02QWinding
 import GeoProofs.Lemmas.C02QHoles
 import GeoProofs.Lemmas.C02QPerturb
 import GeoProofs.Lemmas.WINDHoles
+import GeoProofs.Lemmas.C02XPoint
+import GeoProofs.Lemmas.C02XTable
 
 namespace Geo.Proofs.C02
 open Geo
@@ -727,6 +729,243 @@ example : coordPos (.multiPolygon [⟨[⟨0, 0⟩, ⟨4, 0⟩, ⟨4, 4⟩, ⟨0,
     locate (.multiPolygon [⟨[⟨0, 0⟩, ⟨4, 0⟩, ⟨4, 4⟩, ⟨0, 4⟩, ⟨0, 0⟩], []⟩,
       ⟨[⟨4, 4⟩, ⟨8, 4⟩, ⟨8, 8⟩, ⟨4, 8⟩, ⟨4, 4⟩], []⟩]) ⟨4, 4⟩ :=
   coordPos_multiPolygon_eq_locate_valid_partial _ _ (by decide +kernel) (by decide +kernel)
+
+/-! ### C02X: valid MultiPolygon with no hypothesis left; bounding-box shortcut for every pair; the mask "not `FF*FF****`"
+as a point-set statement; the nine linear pairs; every geometry of the domain against a Point (see the table of the
+100 type pairs in GeoProofs/Lemmas/C02XTable.lean) -/
+
+/-- [T] beside every boundary point of an OGC-valid polygon that is not a ring coordinate, the left or the right face
+sample (the point perturbed by the symbolic infinitesimal across the edge) is interior to the polygon: winding number
+about the shell non-zero, about every hole zero. (Shell edge: the winding number jumps across the edge and no hole
+contains or touches the point, `IE = F` / `BE = F` / `BB ≤ 0` of `polyValid`; hole edge: one side of every edge of a
+simple ring is outside the ring.) -/
+theorem valid_polygon_side_inside (q : Poly) (hv : polyValid q = true) (r : List Pt) (hr : r ∈ q.rings)
+    (a b x : Pt) (hab : (a, b) ∈ segs r) (hx : Geo.Proofs.Kernel.SegMem x a b) (hnv : ∀ r' ∈ q.rings, x ∉ r') :
+    insidePolyE (Geo.Proofs.Spec.faceL a b x) q = true ∨ insidePolyE (Geo.Proofs.Spec.faceR a b x) q = true :=
+  Geo.Proofs.C02X.valid_side_inside hv hr hab hx hnv
+
+example : insidePolyE (Geo.Proofs.Spec.faceL ⟨2, 2⟩ ⟨4, 2⟩ ⟨3, 2⟩)
+      ⟨[⟨0, 0⟩, ⟨10, 0⟩, ⟨10, 10⟩, ⟨0, 10⟩, ⟨0, 0⟩], [[⟨2, 2⟩, ⟨4, 2⟩, ⟨4, 4⟩, ⟨2, 4⟩, ⟨2, 2⟩]]⟩ = true ∨
+    insidePolyE (Geo.Proofs.Spec.faceR ⟨2, 2⟩ ⟨4, 2⟩ ⟨3, 2⟩)
+      ⟨[⟨0, 0⟩, ⟨10, 0⟩, ⟨10, 10⟩, ⟨0, 10⟩, ⟨0, 0⟩], [[⟨2, 2⟩, ⟨4, 2⟩, ⟨4, 4⟩, ⟨2, 4⟩, ⟨2, 2⟩]]⟩ = true :=
+  valid_polygon_side_inside _ (by decide +kernel) [⟨2, 2⟩, ⟨4, 2⟩, ⟨4, 4⟩, ⟨2, 4⟩, ⟨2, 2⟩] (by simp [Poly.rings])
+    ⟨2, 2⟩ ⟨4, 2⟩ ⟨3, 2⟩ (by simp [segs]) ⟨1 / 2, by norm_num, by norm_num, by norm_num, by norm_num⟩
+    (by decide)
+
+/-- [T] two OGC-valid polygons whose DE-9IM matrix has `II = F`: no point is interior to the first and on the boundary
+of the second (a face atom beside the boundary point, or beside the midpoint of an adjacent elementary sub-segment of the
+arrangement, would be interior to both). -/
+theorem valid_polygons_apart (m m' : Poly) (hv : polyValid m = true) (hv' : polyValid m' = true)
+    (hii : (relateParts (partsOfPoly m) (partsOfPoly m')).ii = .empty) (p : Pt)
+    (hin : locate (.polygon m) p = .inside) : locate (.polygon m') p ≠ .onBoundary :=
+  Geo.Proofs.C02X.valid_polys_apart hv hv' hii p hin
+
+example : locate (.polygon ⟨[⟨4, 4⟩, ⟨8, 4⟩, ⟨8, 8⟩, ⟨4, 8⟩, ⟨4, 4⟩], []⟩) ⟨2, 2⟩ ≠ .onBoundary :=
+  valid_polygons_apart ⟨[⟨0, 0⟩, ⟨4, 0⟩, ⟨4, 4⟩, ⟨0, 4⟩, ⟨0, 0⟩], []⟩ ⟨[⟨4, 4⟩, ⟨8, 4⟩, ⟨8, 8⟩, ⟨4, 8⟩, ⟨4, 4⟩], []⟩
+    (by decide +kernel) (by decide +kernel) (by decide +kernel) ⟨2, 2⟩ (by decide +kernel)
+
+/-- [T] the member-against-member hypothesis of `coordPos_multiPolygon_eq_locate_valid_partial` from validity: in a valid
+MultiPolygon (`multiPolyValid`: valid members, `II = F` and `BB` of dimension ≤ 0 for every pair) no point is interior to
+one member and on the boundary of another. -/
+theorem multiPolygon_members_apart (ps : List Poly) (hv : multiPolyValid ps = true) (p : Pt) :
+    ∀ m ∈ ps, ∀ m' ∈ ps, locate (.polygon m) p = .inside → locate (.polygon m') p ≠ .onBoundary :=
+  Geo.Proofs.C02X.multiPolyValid_apart hv p
+
+example : locate (.polygon ⟨[⟨4, 4⟩, ⟨8, 4⟩, ⟨8, 8⟩, ⟨4, 8⟩, ⟨4, 4⟩], []⟩) ⟨1, 1⟩ ≠ .onBoundary :=
+  multiPolygon_members_apart [⟨[⟨0, 0⟩, ⟨4, 0⟩, ⟨4, 4⟩, ⟨0, 4⟩, ⟨0, 0⟩], []⟩, ⟨[⟨4, 4⟩, ⟨8, 4⟩, ⟨8, 8⟩, ⟨4, 8⟩, ⟨4, 4⟩], []⟩]
+    (by decide +kernel) ⟨1, 1⟩ ⟨[⟨0, 0⟩, ⟨4, 0⟩, ⟨4, 4⟩, ⟨0, 4⟩, ⟨0, 0⟩], []⟩ (by simp)
+    ⟨[⟨4, 4⟩, ⟨8, 4⟩, ⟨8, 8⟩, ⟨4, 8⟩, ⟨4, 4⟩], []⟩ (by simp) (by decide +kernel)
+
+/-- [T] **MultiPolygon, OGC-valid: `coordinate_position` is the specification's point location at every point** — no
+hypothesis left (members' positions by `coordPos_polygon_eq_locate_valid`, member against member by
+`multiPolygon_members_apart`). -/
+theorem coordPos_multiPolygon_eq_locate_valid (ps : List Poly) (p : Pt) (hv : multiPolyValid ps = true) :
+    coordPos (.multiPolygon ps) p = locate (.multiPolygon ps) p :=
+  Geo.Proofs.C02X.coordPos_multiPolygon_valid ps p hv
+
+example : coordPos (.multiPolygon [⟨[⟨0, 0⟩, ⟨4, 0⟩, ⟨4, 4⟩, ⟨0, 4⟩, ⟨0, 0⟩], [[⟨1, 1⟩, ⟨2, 1⟩, ⟨2, 2⟩, ⟨1, 1⟩]]⟩,
+      ⟨[⟨4, 4⟩, ⟨8, 4⟩, ⟨8, 8⟩, ⟨4, 8⟩, ⟨4, 4⟩], []⟩]) ⟨4, 4⟩ =
+    locate (.multiPolygon [⟨[⟨0, 0⟩, ⟨4, 0⟩, ⟨4, 4⟩, ⟨0, 4⟩, ⟨0, 0⟩], [[⟨1, 1⟩, ⟨2, 1⟩, ⟨2, 2⟩, ⟨1, 1⟩]]⟩,
+      ⟨[⟨4, 4⟩, ⟨8, 4⟩, ⟨8, 8⟩, ⟨4, 8⟩, ⟨4, 4⟩], []⟩]) ⟨4, 4⟩ :=
+  coordPos_multiPolygon_eq_locate_valid _ _ (by decide +kernel)
+
+/-- [T] **`has_disjoint_bboxes` is sound for every pair of geometries of the validity domain, point form**: disjoint
+bounding boxes ⇒ no point is located in the interior or on the boundary of both (`bounding_rect` only ranges over the
+exterior traversal — K6 of C19 —, but on the domain hole coordinates lie in the shell's box by `BE = F`, Rects have
+`min ≤ max` and all rings are closed). Covers every early return of the `Intersects` dispatch: LineString / MultiLineString /
+MultiPolygon / GeometryCollection × anything, the inner per-member tests, and `Polygon × Polygon` (hence the Rect and Triangle
+pairs that go through `to_polygon`). -/
+theorem disjointBB_sound_point (a b : Geom) (ha : inDomain a = true) (hb : inDomain b = true)
+    (h : disjointBB a b = true) (p : Pt) : locate a p = .outside ∨ locate b p = .outside :=
+  Geo.Proofs.C02X.disjointBB_no_common_point ha hb h p
+
+example : locate (.rect ⟨0, 0⟩ ⟨2, 2⟩) ⟨1, 1⟩ = .outside ∨
+    locate (.polygon ⟨[⟨3, 0⟩, ⟨5, 0⟩, ⟨5, 5⟩, ⟨3, 0⟩], []⟩) ⟨1, 1⟩ = .outside :=
+  disjointBB_sound_point _ _ (by decide +kernel) (by decide +kernel) (by decide +kernel) ⟨1, 1⟩
+
+/-- [T] … **matrix form**: the DE-9IM specification of a pair with disjoint bounding boxes has the shape `FF*FF****`, so
+`is_intersects` is `false` on it — the value the shortcut returns. -/
+theorem disjointBB_sound_spec (a b : Geom) (ha : inDomain a = true) (hb : inDomain b = true)
+    (h : disjointBB a b = true) : Gen.isIntersects (relateSpec a b) = false :=
+  Geo.Proofs.C02X.disjointBB_spec ha hb h
+
+example : Gen.isIntersects (relateSpec (.triangle ⟨0, 0⟩ ⟨2, 0⟩ ⟨0, 2⟩)
+    (.multiLineString [[⟨3, 0⟩, ⟨5, 0⟩], [⟨3, 1⟩, ⟨5, 5⟩]])) = false :=
+  disjointBB_sound_spec _ _ (by decide +kernel) (by decide +kernel) (by decide +kernel)
+
+/-- [T] the specification's point location is constant on every elementary sub-segment of the arrangement, for an operand
+with closed rings (winding numbers by `windingE_const`, on-ness by "an edge meets an elementary sub-segment in all or
+nothing"); `ps` is the left or the right operand. -/
+theorem locate_const_on_elementary (pa pb : Parts) (hcl : Geo.Proofs.C02X.ClosedRings pa)
+    (a b u v : Pt) (hs : (a, b) ∈ pa.allSegs ++ pb.allSegs)
+    (E : Geo.Proofs.C02Q.Elem (Geo.Proofs.Spec.vertsOf pa pb) a b u v)
+    (p m : Pt) (hp : Geo.Proofs.C02Q.Within a b u v p) (hm : Geo.Proofs.C02Q.Within a b u v m) :
+    locateParts pa m = locateParts pa p :=
+  Geo.Proofs.C02X.locate_const (fun _ hs' => List.mem_append_left _ hs')
+    (fun _ hc => Geo.Proofs.C02X.allCoords_mem_verts_left hc) hcl hs E hp hm
+
+/-- [T] **the mask "not `FF*FF****`" on the DE-9IM specification is "the operands have a common point"**, for all operands
+with closed rings (every geometry of the validity domain): (⇒) vertex and midpoint atoms are points, a face atom inside
+a polygon sits beside a point on or inside it; (⇐) a common point on the arrangement has an atom with the same locations
+(`locate_const_on_elementary`), a common point off the arrangement is moved along a segment to the first ring it meets. -/
+theorem isIntersects_iff_common_point (a b : Geom) (ca : Geo.Proofs.C02X.ClosedRings (parts a))
+    (cb : Geo.Proofs.C02X.ClosedRings (parts b)) :
+    Gen.isIntersects (relateSpec a b) = true ↔ ∃ p, locate a p ≠ .outside ∧ locate b p ≠ .outside :=
+  Geo.Proofs.C02X.isIntersects_iff_common_point_closed ca cb
+
+/-- [T] … in particular on the validity domain. -/
+theorem isIntersects_iff_common_point_dom (a b : Geom) (ha : inDomain a = true) (hb : inDomain b = true) :
+    Gen.isIntersects (relateSpec a b) = true ↔ ∃ p, locate a p ≠ .outside ∧ locate b p ≠ .outside :=
+  Geo.Proofs.C02X.isIntersects_iff_common_point_closed (Geo.Proofs.C02X.dom_facts a ha).closed
+    (Geo.Proofs.C02X.dom_facts b hb).closed
+
+example : Gen.isIntersects (relateSpec (.rect ⟨0, 0⟩ ⟨4, 4⟩) (.polygon ⟨[⟨1, 1⟩, ⟨2, 1⟩, ⟨2, 2⟩, ⟨1, 1⟩], []⟩)) = true :=
+  (isIntersects_iff_common_point_dom _ _ (by decide +kernel) (by decide +kernel)).mpr
+    ⟨⟨7 / 4, 5 / 4⟩, by decide +kernel, by decide +kernel⟩
+
+/-- [T] `Line × Line`: `intersects` ⇔ the two segments share a point (degenerate lines included). -/
+theorem intersectsM_line_line_iff (a b c d : Pt) :
+    intersectsM (.line a b) (.line c d) = true ↔
+      ∃ p, Geo.Proofs.Kernel.SegMem p a b ∧ Geo.Proofs.Kernel.SegMem p c d := by
+  rw [Geo.Proofs.C02X.intersectsM_linear_iff _ _ rfl rfl]
+  unfold Geo.Proofs.C02X.SegsMeet
+  simp only [Geo.Proofs.C02X.curveSegs_line, List.mem_singleton, exists_eq_left]
+
+/-- [T] **the nine pairs of Line / LineString / MultiLineString, all inputs**: `intersects` holds exactly when a segment
+of the first operand and a segment of the second have a common point — every bounding-box early return on the way
+(outer, per member, `LineString × Line`) loses nothing. -/
+theorem intersectsM_linear_iff (a b : Geom) (ha : Geo.Proofs.C02X.isLinear a = true)
+    (hb : Geo.Proofs.C02X.isLinear b = true) :
+    intersectsM a b = true ↔
+      ∃ s ∈ (parts a).curveSegs, ∃ t ∈ (parts b).curveSegs, ∃ p,
+        Geo.Proofs.Kernel.SegMem p s.1 s.2 ∧ Geo.Proofs.Kernel.SegMem p t.1 t.2 :=
+  Geo.Proofs.C02X.intersectsM_linear_iff a b ha hb
+
+example : intersectsM (.lineString [⟨0, 0⟩, ⟨2, 2⟩, ⟨4, 0⟩]) (.multiLineString [[⟨5, 5⟩, ⟨6, 6⟩], [⟨3, 0⟩, ⟨3, 3⟩]]) = true :=
+  (intersectsM_linear_iff _ _ rfl rfl).mpr ⟨(⟨2, 2⟩, ⟨4, 0⟩), by simp [parts, Parts.curveSegs, segs],
+    (⟨3, 0⟩, ⟨3, 3⟩), by simp [parts, Parts.curveSegs, segs], ⟨3, 1⟩,
+    ⟨1 / 2, by norm_num, by norm_num, by norm_num, by norm_num⟩,
+    ⟨1 / 3, by norm_num, by norm_num, by norm_num, by norm_num⟩⟩
+
+/-- [T] … **and that is the mask "not `FF*FF****`" on the DE-9IM specification of the pair**, for all inputs (one-coordinate,
+closed and non-simple line strings, degenerate lines). -/
+theorem intersectsM_linear_eq_spec (a b : Geom) (ha : Geo.Proofs.C02X.isLinear a = true)
+    (hb : Geo.Proofs.C02X.isLinear b = true) : intersectsM a b = Gen.isIntersects (relateSpec a b) :=
+  Geo.Proofs.C02X.intersectsM_linear_eq_spec a b ha hb
+
+example : intersectsM (.line ⟨0, 0⟩ ⟨2, 2⟩) (.lineString [⟨0, 2⟩, ⟨2, 0⟩, ⟨5, 5⟩]) =
+    Gen.isIntersects (relateSpec (.line ⟨0, 0⟩ ⟨2, 2⟩) (.lineString [⟨0, 2⟩, ⟨2, 0⟩, ⟨5, 5⟩])) :=
+  intersectsM_linear_eq_spec _ _ rfl rfl
+
+/-- [T] `intersects` is symmetric on the nine linear pairs. -/
+theorem intersectsM_linear_symm (a b : Geom) (ha : Geo.Proofs.C02X.isLinear a = true)
+    (hb : Geo.Proofs.C02X.isLinear b = true) : intersectsM a b = intersectsM b a :=
+  Geo.Proofs.C02X.intersectsM_linear_symm a b ha hb
+
+example : intersectsM (.multiLineString [[⟨0, 0⟩, ⟨1, 1⟩]]) (.line ⟨0, 1⟩ ⟨1, 0⟩) =
+    intersectsM (.line ⟨0, 1⟩ ⟨1, 0⟩) (.multiLineString [[⟨0, 0⟩, ⟨1, 1⟩]]) :=
+  intersectsM_linear_symm _ _ rfl rfl
+
+/-- [T] every clause of `calculate_coordinate_position` (all ten types, nested collections) is additive in the
+accumulator: it ORs its own `is_inside` into the flag and adds its own boundary hits to the counter. -/
+theorem calcPos_additive (g : Geom) (p : Pt) (acc : PosAcc) :
+    calcPos g p acc = ⟨acc.inside || (calcPos g p ⟨false, 0⟩).inside, acc.bcount + (calcPos g p ⟨false, 0⟩).bcount⟩ :=
+  Geo.Proofs.C02X.calcPos_add g p acc
+
+/-- [T] members of a collection of the domain are disjoint as point sets: at every point at most one member is not
+`Outside` (from `II = IB = BI = BB = F` of `collectionOk` through `isIntersects_iff_common_point`). -/
+theorem collection_members_apart (gs : List Geom) (hd : inDomain (.collection gs) = true) (p : Pt) :
+    gs.Pairwise (fun g1 g2 => locate g1 p = .outside ∨ locate g2 p = .outside) :=
+  Geo.Proofs.C02X.collection_apart (Geo.Proofs.C02X.inDomain_collection hd).1
+    (Geo.Proofs.C02X.inDomain_collection hd).2 p
+
+example : [Geom.lineString [⟨0, 0⟩, ⟨4, 0⟩], .line ⟨0, 1⟩ ⟨4, 1⟩].Pairwise
+    (fun g1 g2 => locate g1 ⟨2, 0⟩ = .outside ∨ locate g2 ⟨2, 0⟩ = .outside) :=
+  collection_members_apart _ (by decide +kernel) _
+
+/-- [T] **`coordinate_position(g, p)` is the specification's point location for every geometry `g` of the validity domain**
+(`inDomain`: all ten types, collections — also nested — with pairwise disjoint members), at every point `p` that is an end
+point of at most one open member of each MultiLineString inside `g` (`noK9`). Full statement (no `noK9`): false — open
+known finding K9, witness `coordPos_mls_ne_locate_witness`. -/
+theorem coordPos_eq_locate_dom_partial (g : Geom) (p : Pt) (hd : inDomain g = true)
+    (hk : Geo.Proofs.C02X.noK9 p g = true) : coordPos g p = locate g p :=
+  Geo.Proofs.C02X.coordPos_dom g p hd hk
+
+example : coordPos (.collection [.polygon ⟨[⟨0, 0⟩, ⟨4, 0⟩, ⟨4, 4⟩, ⟨0, 4⟩, ⟨0, 0⟩], []⟩,
+      .collection [.rect ⟨6, 0⟩ ⟨8, 2⟩, .triangle ⟨6, 4⟩ ⟨8, 4⟩ ⟨6, 6⟩]]) ⟨8, 1⟩ =
+    locate (.collection [.polygon ⟨[⟨0, 0⟩, ⟨4, 0⟩, ⟨4, 4⟩, ⟨0, 4⟩, ⟨0, 0⟩], []⟩,
+      .collection [.rect ⟨6, 0⟩ ⟨8, 2⟩, .triangle ⟨6, 4⟩ ⟨8, 4⟩ ⟨6, 6⟩]]) ⟨8, 1⟩ :=
+  coordPos_eq_locate_dom_partial _ _ (by decide +kernel) (by decide +kernel)
+
+/-- [T] **`intersects(g, Point)` = "not `FF*FF****`" on the DE-9IM specification for every geometry `g` of the validity
+domain** (no K9 clause: the `Intersects` paths do not go through the boundary counter). -/
+theorem intersectsM_geom_point (g : Geom) (c : Pt) (hd : inDomain g = true) :
+    intersectsM g (.point c) = Gen.isIntersects (relateSpec g (.point c)) :=
+  Geo.Proofs.C02X.intersectsM_dom_point g c hd
+
+example : intersectsM (.multiPolygon [⟨[⟨0, 0⟩, ⟨4, 0⟩, ⟨4, 4⟩, ⟨0, 4⟩, ⟨0, 0⟩], []⟩,
+      ⟨[⟨4, 4⟩, ⟨8, 4⟩, ⟨8, 8⟩, ⟨4, 8⟩, ⟨4, 4⟩], []⟩]) (.point ⟨4, 4⟩) =
+    Gen.isIntersects (relateSpec (.multiPolygon [⟨[⟨0, 0⟩, ⟨4, 0⟩, ⟨4, 4⟩, ⟨0, 4⟩, ⟨0, 0⟩], []⟩,
+      ⟨[⟨4, 4⟩, ⟨8, 4⟩, ⟨8, 8⟩, ⟨4, 8⟩, ⟨4, 4⟩], []⟩]) (.point ⟨4, 4⟩)) :=
+  intersectsM_geom_point _ _ (by decide +kernel)
+
+/-- [T] `Point.intersects(g) = g.intersects(Point)` for every `g` (all inputs, collections included). -/
+theorem intersectsM_point_symm (g : Geom) (c : Pt) : intersectsM (.point c) g = intersectsM g (.point c) :=
+  Geo.Proofs.C02X.intersectsM_point_symm g c
+
+/-- [T] **`intersects(Point, g)` = its mask on the specification of `(Point, g)`**, every `g` of the domain. -/
+theorem intersectsM_point_geom (g : Geom) (c : Pt) (hd : inDomain g = true) :
+    intersectsM (.point c) g = Gen.isIntersects (relateSpec (.point c) g) := by
+  rw [intersectsM_point_symm, intersectsM_geom_point g c hd]
+  have : relateSpec g (.point c) = (relateSpec (.point c) g).transpose :=
+    Geo.Proofs.Spec.relateParts_transpose (parts (.point c)) (parts g)
+  rw [this, isIntersects_transpose]
+
+example : intersectsM (.point ⟨1, 1⟩) (.collection [.line ⟨0, 0⟩ ⟨2, 2⟩, .lineString [⟨0, 3⟩, ⟨3, 3⟩]]) =
+    Gen.isIntersects (relateSpec (.point ⟨1, 1⟩) (.collection [.line ⟨0, 0⟩ ⟨2, 2⟩, .lineString [⟨0, 3⟩, ⟨3, 3⟩]])) :=
+  intersectsM_point_geom _ _ (by decide +kernel)
+
+/-- [T] **`contains(g, Point)` = `T*****FF*` on the DE-9IM specification for every geometry `g` of the validity domain**
+(MultiPolygon: any member contains; collections: any member contains, members being disjoint). -/
+theorem containsM_geom_point (g : Geom) (c : Pt) (hd : inDomain g = true) :
+    containsM g (.point c) = Gen.isContains (relateSpec g (.point c)) :=
+  Geo.Proofs.C02X.containsM_dom_point g c hd
+
+example : containsM (.collection [.polygon ⟨[⟨0, 0⟩, ⟨4, 0⟩, ⟨4, 4⟩, ⟨0, 4⟩, ⟨0, 0⟩], []⟩, .rect ⟨6, 0⟩ ⟨8, 2⟩]) (.point ⟨7, 1⟩) =
+    Gen.isContains (relateSpec (.collection [.polygon ⟨[⟨0, 0⟩, ⟨4, 0⟩, ⟨4, 4⟩, ⟨0, 4⟩, ⟨0, 0⟩], []⟩, .rect ⟨6, 0⟩ ⟨8, 2⟩])
+      (.point ⟨7, 1⟩)) :=
+  containsM_geom_point _ _ (by decide +kernel)
+
+/-- [T] **`Point.is_within(g)` = `T*F**F***` on the specification of `(Point, g)`, every `g` of the domain.** -/
+theorem withinM_point_geom (g : Geom) (c : Pt) (hd : inDomain g = true) :
+    withinM (.point c) g = Gen.isWithin (relateSpec (.point c) g) :=
+  withinM_point_of_contains g c (containsM_geom_point g c hd)
+
+example : withinM (.point ⟨5, 5⟩) (.multiPolygon [⟨[⟨0, 0⟩, ⟨4, 0⟩, ⟨4, 4⟩, ⟨0, 4⟩, ⟨0, 0⟩], []⟩,
+      ⟨[⟨4, 4⟩, ⟨8, 4⟩, ⟨8, 8⟩, ⟨4, 8⟩, ⟨4, 4⟩], []⟩]) =
+    Gen.isWithin (relateSpec (.point ⟨5, 5⟩) (.multiPolygon [⟨[⟨0, 0⟩, ⟨4, 0⟩, ⟨4, 4⟩, ⟨0, 4⟩, ⟨0, 0⟩], []⟩,
+      ⟨[⟨4, 4⟩, ⟨8, 4⟩, ⟨8, 8⟩, ⟨4, 8⟩, ⟨4, 4⟩], []⟩])) :=
+  withinM_point_geom _ _ (by decide +kernel)
 
 /-! ### TRAN: the `CoordinatePosition` accumulator, clause by clause, is the term read off the Rust bodies -/
 
